@@ -32,8 +32,23 @@ pub fn drive_block(t: &mut Tracer, tier: &str, seed: u64, plan: Option<String>) 
     // (a) planned call sequences (E2: every sequence up to the plan's bound) on objects with random keys
     if let Some(p) = plan {
         let text = std::fs::read_to_string(p).expect("plan");
+        // crafted blocks: the specification ran a chosen mid-cipher state backwards so that the round transform of ONE round receives a special word
+        let arrb = |v: &Value| -> Vec<u8> { v.as_array().unwrap().iter().map(|x| x.as_u64().unwrap() as u8).collect() };
+        let mut groups: Vec<(Vec<u8>, Vec<(bool, Vec<u8>)>)> = vec![];       // one session (one cipher object) per key, its blocks in plan order
+        for line in text.lines() {
+            let v: Value = serde_json::from_str(line).unwrap();
+            if v["kind"] != "craft" { continue; }
+            let key = arrb(&v["key"]);
+            if !groups.iter().any(|(k, _)| *k == key) { groups.push((key.clone(), vec![])); }
+            groups.iter_mut().find(|(k, _)| *k == key).unwrap().1.push((v["dir"] == "enc", arrb(&v["block"])));
+        }
+        for (key, blocks) in &groups {
+            let sess = format!("sm4/craft{}", hex::encode(key));
+            if let Some(c) = new_cipher(t, &sess, key) { for (enc, b) in blocks { block_op(t, &sess, &c, *enc, "crafted", b); } }
+        }
         for (n, line) in text.lines().enumerate() {
             let v: Value = serde_json::from_str(line).unwrap();
+            if v["kind"] == "craft" { continue; }
             let key = rng.bytes(16);
             let sess = format!("sm4/seq{}", n);
             let c = match new_cipher(t, &sess, &key) { Some(c) => c, None => continue };
